@@ -89,6 +89,7 @@ func isPanic(d any) bool {
 }
 
 type c17Scenario struct {
+	id       string // property the scenario reports under (C17, or C12 for the completion-order scenarios)
 	name     string
 	pattern  string // one letter per non-root certificate
 	entry    string // validate | checkstatus
@@ -307,7 +308,11 @@ func (s *c17Scenario) body(c *mc.Ctx) {
 	rep := sc.Run(call, decide)
 	c.Cover(fmt.Sprintf("steps=%d", rep.Steps))
 	// ---- oracle --------------------------------------------------------------------
-	sigBase := "C17 " + s.entry
+	id := s.id
+	if id == "" {
+		id = "C17"
+	}
+	sigBase := id + " " + s.entry
 	if rep.Deadlock {
 		c.Outcome("deadlock")
 		c.Fail(sigBase+" deadlock", "no goroutine can run and the call has not returned (injected panics %v, cancelled %v)\n%s", injectedPanics, cancelled, rep.Dump)
@@ -357,6 +362,9 @@ func (s *c17Scenario) body(c *mc.Ctx) {
 				if why := compareCert(r.res[i], want, true); why != "" {
 					c.Fail(sigBase+" schedule-dependent-or-wrong-result: "+stripDigits(why), "caller %d cert %d under schedule %v: %s", k, i, released, why)
 				}
+			}
+			for _, why := range shapeViolations(chain, r.res, entryName(s.entry)) {
+				c.Fail(sigBase+" result-shape: "+stripDigits(why), "caller %d under schedule %v: %s", k, released, why)
 			}
 			if rr := r.res[n-1]; rr == nil || rr.Result != result.ResultNonRevokable {
 				c.Fail(sigBase+" root not NonRevokable", "%+v", rr)
